@@ -64,10 +64,13 @@ def _gen_ok(run, g, genset):
     return g
 
 
+_TMP = {}   # the harness creates its databases under the check's scratch directory
+
+
 def _replay_once(vh, universe, behs, negative, workers):
     args = ["lq-replay", "-workers", str(workers)] + (["-negative"] if negative else [])
     lines = [json.dumps(universe, separators=(",", ":"))] + [json.dumps(b, separators=(",", ":")) for b in behs]
-    rc, outs, err = vlib.run_vh(vh, args, stdin_lines=lines, timeout=3000, check=False)
+    rc, outs, err = vlib.run_vh(vh, args, stdin_lines=lines, timeout=3000, check=False, env_extra=_TMP)
     crashed = rc != 0 and ("panic:" in err or "fatal error:" in err or "goroutine " in err)
     if rc != 0 and not crashed:
         raise vlib.MachineryError("lq-replay failed rc=%s\nstderr: %s" % (rc, err[-3000:]))
@@ -113,10 +116,11 @@ def main():
     thorough = run.tier == "thorough"
     vh = vlib.build_vh(FAMILY)
     with vlib.Scratch("verif-c29-") as sc:
+        _TMP["TMPDIR"] = sc
         sets = [("pos4" if thorough else "pos3", ""),
                 ("cond-thorough" if thorough else "cond-quick", "CONSTANT ChunkSize = %d" % (100 if thorough else 20)),
                 ("rand", "CONSTANT Seed = %d\nCONSTANT NRand = %d\nCONSTANT Depth = %d" %
-                 (run.seed, 300 if thorough else 60, 40 if thorough else 30))]
+                 (run.seed, 200 if thorough else 40, 40 if thorough else 30))]
         jobs = {"mc-cov": ("LiveQueryMC", "LiveQueryMC.cfg", {"coverage": True, "timeout": 900, "consts": "CONSTANT MaxPackets = 2"}),
                 "mc": ("LiveQueryMC", "LiveQueryMC.cfg", {"timeout": 1500, "consts": "CONSTANT MaxPackets = %d" % (4 if thorough else 3)}),
                 "mc-neg": ("LiveQueryMC", "LiveQueryMCNeg.cfg", {"timeout": 900, "consts": "CONSTANT MaxPackets = 3"})}
@@ -182,11 +186,16 @@ def main():
         for d in drift:
             run.drift.append({"behaviour": d["id"], "step": d["step"], "msg": d["msg"][:400]})
         classes = collections.Counter()
+        first, rest, seen = [], [], set()
         for o in outs:
             if o.get("ok") is False:
                 classes[o["desc"].get("cls")] += 1
-                run.violation(o["desc"], {"kind": "lq-replay", "universe": universe, "behaviour": o.get("behaviour"),
-                                          "step": o.get("step"), "msg": o.get("msg", "")[:2000]})
+                k = (o["desc"].get("cls"), o["desc"].get("kind"))
+                (rest if k in seen else first).append(o)
+                seen.add(k)
+        for o in first + rest:   # one representative of every class first
+            run.violation(o["desc"], {"kind": "lq-replay", "universe": universe, "behaviour": o.get("behaviour"),
+                                      "step": o.get("step"), "msg": o.get("msg", "")[:2000]})
         if classes:
             run.cov["failing_steps_by_class"] = dict(classes)
 
@@ -203,7 +212,7 @@ def main():
     run.cov["rule"] = ("distinct = distinct (live query, in-memory flows, database) triples compared; F covers all sequences of length "
                        "%d over {3 packets + 1 on the second interface, write-out, 2 live queries} with a live query, one live query per "
                        "condition tree of the %s set (all attributes, attribute subsets for a core set) and %d seeded pseudo-random "
-                       "schedules" % (4 if thorough else 3, "thorough" if thorough else "quick", 300 if thorough else 60))
+                       "schedules" % (4 if thorough else 3, "thorough" if thorough else "quick", 200 if thorough else 40))
     run.assumptions += [
         "every interface has had its first (empty) write-out before the first live query: the query front end lists interfaces from the database",
         "packet shapes with unambiguous orientation only (TCP SYN, UDP from an ephemeral port, ICMP echo request, portless protocols)",
@@ -218,6 +227,7 @@ def main():
 def replay(path):
     d = json.load(open(path))["replay"]
     vh = vlib.build_vh(FAMILY)
+    _TMP.clear()
     outs, summ, crashes = _replay(vh, d["universe"], [d["behaviour"]], workers=1)
     for at, err in crashes:
         print("harness process died:\n" + err[-3000:])
